@@ -30,6 +30,7 @@ type filePeer struct {
 	emptyData  bool   // answer READ with empty DATA (never at EOF)
 	failClose  uint32 // non-zero: CLOSE is answered with this status code
 	arrivals   []byte // the order in which requests carrying the handle ('r') and CLOSE requests ('c') arrived
+	modeKind   int    // files that are not regular: 0 a character device (0020644); 1 permissions without any type bits (0644); 2 no permissions attribute at all
 	statSize   int    // what STAT / FSTAT report as the size; 0 = the true size, k+1 = k (a server may report 0 for a file that has content)
 }
 
@@ -37,10 +38,16 @@ func (p *filePeer) attrsBody() []byte {
 	mode := uint32(0o100644)
 	if !p.regular {
 		mode = 0o020644
+		if p.modeKind == 1 {
+			mode = 0o644
+		}
 	}
 	size := uint64(len(p.store))
 	if p.statSize > 0 {
 		size = uint64(p.statSize - 1)
+	}
+	if !p.regular && p.modeKind == 2 {
+		return (&rb{}).u32(0x9).u64(size).u32(1700000000).u32(1700000000).b
 	}
 	return (&rb{}).u32(0xd).u64(size).u32(mode).u32(1700000000).u32(1700000000).b
 }
